@@ -1,7 +1,6 @@
-import Driver.Common
+import Driver.Merge
 open Lean Drv
 namespace Drv.C03
-/-- placeholder until the property's driver is written -/
-def judge (_ : Json) : Except String Verdict := .error "C03 driver not implemented"
+def judge (j : Json) : Except String Verdict := Drv.Merge.judge "C03" j
 def main : IO UInt32 := runLines judge
 end Drv.C03
